@@ -582,11 +582,22 @@ def check_c12(tier):
     with open(gtla, "w") as fh:
         fh.write(gen_locks_mc(nesting, gmod) if nesting else
                  "---- MODULE %s ----\nEXTENDS Locks\nGenTemplates == <<[held |-> <<>>, req |-> [map |-> \"definitions\", mode |-> \"R\"]]>>\n====\n" % gmod)
-    threads = "{1, 2}" if tier == "quick" else "{1, 2, 3}"
-    with open(gcfg, "w") as fh:
-        fh.write("CONSTANTS\n  Templates <- GenTemplates\n  Threads = %s\n  Shards = {0, 1}\nSPECIFICATION Spec\nCHECK_DEADLOCK FALSE\nINVARIANTS\n  NoDeadlock\n" % threads)
+    # quick: 2 threads x 2 shards.  thorough: 2 threads x 3 shards, and 3 threads on one shard (a wait cycle through three
+    # maps; 3 threads x 2 shards does not finish within an hour)
+    configs = [("{1, 2}", "{0, 1}")] if tier == "quick" else [("{1, 2}", "{0, 1, 2}"), ("{1, 2, 3}", "{0}")]
+    meta = None
     try:
-        meta = C.run_tlc(gmod, gmod + ".cfg", workers=8, timeout=3600, cache=False)
+        for threads, shards in configs:
+            with open(gcfg, "w") as fh:
+                fh.write("CONSTANTS\n  Templates <- GenTemplates\n  Threads = %s\n  Shards = %s\nSPECIFICATION Spec\nCHECK_DEADLOCK FALSE\nINVARIANTS\n  NoDeadlock\n" % (threads, shards))
+            m1 = C.run_tlc(gmod, gmod + ".cfg", workers=8, timeout=3600, cache=False)
+            if meta is None:
+                meta = m1
+            else:
+                meta = dict(m1, distinct=meta["distinct"] + m1["distinct"], transitions=meta["transitions"] + m1["transitions"],
+                            wall_s=meta["wall_s"] + m1["wall_s"], ok=meta["ok"] and m1["ok"], errors=meta["errors"] + m1["errors"])
+            if not m1["ok"]:
+                break
     finally:
         for f in (gtla, gcfg):
             if os.path.exists(f):
